@@ -252,9 +252,19 @@ Qed.
 End Live.
 
 (* ------------------------------------------------------------------ *)
-(* 3. free()                                                            *)
+(* 3. free(), __exit__ (leaving the with-block in any way), __del__     *)
 
 Definition dead (d : nd) : Prop := live d = false /\ alarm d = None.
+
+(* __exit__ does to the object exactly what free() does, whatever it receives,
+   and returns a false value *)
+Lemma exit_is_free d exc : exit_ d exc = (free d, false).
+Proof. reflexivity. Qed.
+
+(* a releasing operation (free, __del__, __exit__ with or without an
+   exception) steps the object by [free] and leaves the clock alone *)
+Lemma step_release d now o : is_free o = true -> step (d, now) o = (free d, now).
+Proof. destruct o; cbn; intros H; try discriminate; reflexivity. Qed.
 
 Lemma step_dead d now o : dead d ->
   dead (fst (step (d, now) o)) /\ released (fst (step (d, now) o)) = released d.
@@ -263,6 +273,7 @@ Proof.
   - cbn. repeat split; assumption.
   - unfold wait. rewrite Hl. cbn. repeat split; assumption.
   - unfold free. rewrite Hl. cbn. repeat split; assumption.
+  - cbn [exit_ fst]. unfold free. rewrite Hl. cbn. repeat split; assumption.
 Qed.
 
 Lemma wait_dead d now : dead d -> wait d now = (d, now).
@@ -292,20 +303,29 @@ Proof.
     + injection Hin as <- <-. reflexivity.
     + eapply IH; eauto.
   - eapply IH; eauto.
+  - eapply IH; eauto.
 Qed.
 
 (* the number of releases is 0 while live and 1 for ever after *)
 Definition rel_inv (d : nd) : Prop :=
   (live d = true /\ released d = 0%nat) \/ (dead d /\ released d = 1%nat).
 
+Lemma free_makes_dead d : rel_inv d -> dead (free d) /\ released (free d) = 1%nat.
+Proof.
+  intros [[Hl Hr]|[[Hl Ha] Hr]]; unfold free; rewrite Hl.
+  - cbn. rewrite Hr. repeat split.
+  - repeat split; assumption.
+Qed.
+
 Lemma step_rel_inv d now o : rel_inv d -> rel_inv (fst (step (d, now) o)).
 Proof.
-  intros [[Hl Hr]|[Hd Hr]].
-  - destruct o; cbn [step].
-    + left. cbn. split; assumption.
-    + unfold wait. rewrite Hl. left. cbn. split; [reflexivity|assumption].
-    + unfold free. rewrite Hl. right. cbn. rewrite Hr. repeat split.
-  - right. pose proof (step_dead d now o Hd) as [A B]. split; [exact A | congruence].
+  intros H. destruct (is_free o) eqn:Ef.
+  - rewrite (step_release d now o Ef). cbn [fst]. right. apply free_makes_dead, H.
+  - destruct H as [[Hl Hr]|[Hd Hr]].
+    + destruct o; try discriminate; cbn [step].
+      * left. cbn. split; assumption.
+      * unfold wait. rewrite Hl. left. cbn. split; [reflexivity|assumption].
+    + right. pose proof (step_dead d now o Hd) as [A B]. split; [exact A | congruence].
 Qed.
 
 Lemma final_app s ops1 ops2 : final s (ops1 ++ ops2) = final (final s ops1) ops2.
@@ -319,37 +339,35 @@ Proof.
   apply (IH d' now'). pose proof (step_rel_inv d now o H) as A. rewrite E in A. exact A.
 Qed.
 
-Lemma free_makes_dead d : rel_inv d -> dead (free d) /\ released (free d) = 1%nat.
-Proof.
-  intros [[Hl Hr]|[[Hl Ha] Hr]]; unfold free; rewrite Hl.
-  - cbn. rewrite Hr. repeat split.
-  - repeat split; assumption.
-Qed.
-
 Lemma create_rel_inv p t0 : rel_inv (create p t0).
 Proof. left. split; reflexivity. Qed.
 
-Lemma after_free p t0 pre :
-  let s := final (create p t0, t0) (pre ++ [Free]) in
-  dead (fst s) /\ released (fst s) = 1%nat.
+(* [rel] is any releasing operation: free(), __del__, or __exit__ with any
+   exception information *)
+Lemma after_release p t0 pre rel : is_free rel = true ->
+  let s := final (create p t0, t0) (pre ++ [rel]) in
+  dead (fst s) /\ released (fst s) = 1%nat /\
+  snd s = snd (final (create p t0, t0) pre).
 Proof.
-  cbv zeta. rewrite final_app.
+  intros Hrel. cbv zeta. rewrite final_app.
   destruct (final (create p t0, t0) pre) as [d now] eqn:E.
-  unfold final at 1. cbn [fold_left step fst].
-  apply free_makes_dead.
+  change (final (d, now) [rel]) with (step (d, now) rel).
+  rewrite (step_release d now rel Hrel). cbn [fst snd].
   pose proof (final_rel_inv pre (create p t0) t0 (create_rel_inv p t0)) as H.
-  rewrite E in H. exact H.
+  rewrite E in H. cbn [fst] in H.
+  destruct (free_makes_dead d H) as [A B]. repeat split; try apply A; try assumption; reflexivity.
 Qed.
 
-Lemma freed p t0 pre post :
-  let s := final (create p t0, t0) (pre ++ [Free]) in
+Lemma freed p t0 pre rel post : is_free rel = true ->
+  let s := final (create p t0, t0) (pre ++ [rel]) in
   (forall c r, In (c, r) (wait_log s post) -> r = c) /\
   live (fst (final s post)) = false /\
   alarm (fst (final s post)) = None /\
   released (fst (final s post)) = 1%nat.
 Proof.
-  cbv zeta. pose proof (after_free p t0 pre) as [Hd Hr]. cbv zeta in Hd, Hr.
-  destruct (final (create p t0, t0) (pre ++ [Free])) as [d now].
+  intros Hrel. cbv zeta.
+  pose proof (after_release p t0 pre rel Hrel) as (Hd & Hr & _). cbv zeta in Hd, Hr.
+  destruct (final (create p t0, t0) (pre ++ [rel])) as [d now].
   cbn [fst] in Hd, Hr. split.
   - intros c r. apply log_dead, Hd.
   - pose proof (final_dead post d now Hd) as [[A B] C]. repeat split; congruence.
@@ -361,13 +379,15 @@ Lemma live_iff_no_free ops : forall d now,
 Proof.
   induction ops as [|o ops IH]; intros d now Hi Hl; [exact Hl|].
   unfold final. cbn [fold_left existsb].
-  destruct o; cbn [is_free orb step].
-  - apply (IH d (now + b) Hi Hl).
-  - unfold wait. rewrite Hl.
-    apply IH; [left; split; [reflexivity|]|reflexivity].
-    destruct Hi as [[_ Hr]|[[Hl' _] _]]; [exact Hr | congruence].
-  - pose proof (free_makes_dead d Hi) as [Hd _].
+  destruct (is_free o) eqn:Ef; cbn [orb].
+  - rewrite (step_release d now o Ef).
+    pose proof (free_makes_dead d Hi) as [Hd _].
     pose proof (final_dead ops (free d) now Hd) as [[A _] _]. exact A.
+  - destruct o; try discriminate; cbn [step].
+    + apply (IH d (now + b) Hi Hl).
+    + unfold wait. rewrite Hl.
+      apply IH; [left; split; [reflexivity|]|reflexivity].
+      destruct Hi as [[_ Hr]|[[Hl' _] _]]; [exact Hr | congruence].
 Qed.
 
 Lemma released_once p t0 ops :
@@ -403,4 +423,70 @@ Proof.
   - rewrite (wait_dead d now Hd). apply (IH d now Hd).
   - pose proof (step_dead d now Free Hd) as [A _]. cbn [step fst] in A.
     apply (IH (free d) now A).
+  - pose proof (step_dead d now (Exit exc) Hd) as [A _]. cbn [step fst] in A.
+    apply (IH _ now A).
+Qed.
+
+(* ------------------------------------------------------------------ *)
+(* 4. the with-block, left in any way                                   *)
+
+(* the exception information of every __exit__ of an operation list, in order *)
+Fixpoint exit_infos (ops : list op) : list (option exn) :=
+  match ops with
+  | [] => []
+  | Exit e :: r => e :: exit_infos r
+  | _ :: r => exit_infos r
+  end.
+
+Definition is_raised (e : option exn) : bool :=
+  match e with Some _ => true | None => false end.
+
+(* __exit__ never swallows: an exception comes out of the with-statement exactly
+   when one went in -- in any state of the object, for any operation list *)
+Lemma exit_log_spec ops : forall s, exit_log s ops = map is_raised (exit_infos ops).
+Proof.
+  induction ops as [|o ops IH]; intros s; [reflexivity|].
+  cbn [exit_log]. destruct o; cbn [exit_infos map]; [apply IH | apply IH | apply IH |].
+  rewrite IH. f_equal.
+Qed.
+
+Lemma is_free_leave h : is_free (leave_with h) = true.
+Proof. reflexivity. Qed.
+
+Lemma exit_log_app ops1 ops2 : forall s,
+  exit_log s (ops1 ++ ops2) = exit_log s ops1 ++ exit_log (final s ops1) ops2.
+Proof.
+  induction ops1 as [|o ops1 IH]; intros s; [reflexivity|].
+  cbn [app exit_log]. unfold final. cbn [fold_left]. fold (final (step s o) ops1).
+  destruct o; rewrite IH; reflexivity.
+Qed.
+
+(* `with NotifierDelay(..) as d: block` for ANY block (any operations, also
+   free() or nested re-entry inside it), left in ANY way [h] -- end of block,
+   break, return, or an exception of any class raised in the block --, followed
+   by ANY further use [post] of the object:
+   at the moment the statement is left the notifier is stopped (no alarm), the
+   handle has been released exactly once, no FPGA time has passed in __exit__;
+   every later wait() returns at the instant it is called; the handle is never
+   released a second time; and the exception (if any) is not swallowed. *)
+Lemma with_block p t0 block h post :
+  let s0 := (create p t0, t0) in
+  let s := final s0 (block ++ [leave_with h]) in
+  (live (fst s) = false /\ alarm (fst s) = None /\ released (fst s) = 1%nat /\
+   snd s = snd (final s0 block)) /\
+  (forall c r, In (c, r) (wait_log s post) -> r = c) /\
+  (live (fst (final s post)) = false /\ alarm (fst (final s post)) = None /\
+   released (fst (final s post)) = 1%nat) /\
+  snd (final s post) = snd s + bodies post /\
+  exit_log s0 (block ++ [leave_with h]) =
+    exit_log s0 block ++ [match h with Raised _ => true | _ => false end].
+Proof.
+  cbv zeta.
+  pose proof (after_release p t0 block (leave_with h) (is_free_leave h)) as ((Hl & Ha) & Hr & Hc).
+  pose proof (freed p t0 block (leave_with h) post (is_free_leave h)) as (Hw & Hp).
+  cbv zeta in Hl, Ha, Hr, Hc, Hw, Hp.
+  split; [repeat split; assumption|]. split; [exact Hw|]. split; [exact Hp|]. split.
+  - destruct (final (create p t0, t0) (block ++ [leave_with h])) as [d now] eqn:E.
+    cbn [fst snd] in *. apply (clock_dead post d now). split; assumption.
+  - rewrite exit_log_app. f_equal. destruct h; reflexivity.
 Qed.
